@@ -1,24 +1,1149 @@
+// walsim - C16 conformance driver: performs REAL wal.Create/Save/SaveSnapshot sequences, mutilates
+// copies of the directory (lost sectors, flipped bytes), runs the REAL readers (wal.Open+ReadAll,
+// wal.Verify, wal.Repair, reopen+append; snap.Snapshotter) and decides by the contract computed
+// from what was actually handed to the writer. Scenarios come from TLC (spec/Wal.tla, binding B1,
+// with the model's prediction) or from a seeded generator.
 package main
 
 import (
+	"bufio"
+	"encoding/json"
+	"errors"
+	"flag"
 	"fmt"
+	"hash/crc32"
+	"io"
 	"os"
+	"path/filepath"
+	"runtime/debug"
+	"sort"
+	"strings"
 
 	"go.etcd.io/etcd/raft/v3/raftpb"
-	"go.etcd.io/etcd/server/v3/etcdserver/api/snap"
 	"go.etcd.io/etcd/server/v3/storage/wal"
 	"go.etcd.io/etcd/server/v3/storage/wal/walpb"
 	"go.uber.org/zap"
 )
 
+var lg = zap.NewNop()
+
+// ---------------------------------------------------------------- scenario format
+
+type Op struct {
+	K     string    `json:"k"` // save | snap
+	Hs    [3]uint64 `json:"hs"`
+	First uint64    `json:"first"`
+	Term  uint64    `json:"term"`
+	Ws    []int     `json:"ws,omitempty"` // entry record sizes in words (TLC scenarios)
+	Bs    []int     `json:"bs,omitempty"` // entry payload sizes in bytes (random scenarios)
+	Sync  bool      `json:"sync"`
+	Cut   bool      `json:"cut"`
+}
+
+type Pred struct {
+	Ok      bool      `json:"ok"`
+	First   string    `json:"first"`
+	Rep     bool      `json:"rep"`
+	Nacc    int       `json:"nacc"`
+	Nents   int       `json:"nents"`
+	Lastidx uint64    `json:"lastidx"`
+	Hs      [3]uint64 `json:"hs"`
+	Off     int       `json:"off"`
+	Err     string    `json:"err"`
+}
+
+type Scenario struct {
+	ID     string `json:"id"`
+	Seg    int    `json:"seg"`  // segment size in words
+	Meta   int    `json:"meta"` // metadata record words (2 = nil metadata)
+	Ops    []Op   `json:"ops"`
+	Lost   []int  `json:"lost"`
+	Soff   int    `json:"soff"`
+	Tail   int    `json:"tail"` // number of segment files visible at the crash
+	App    []Op   `json:"app"`
+	Lost2  []int  `json:"lost2"`
+	P1     *Pred  `json:"p1,omitempty"`
+	P2     *Pred  `json:"p2,omitempty"`
+	Two    bool   `json:"two"`
+	NoPred bool   `json:"nopred,omitempty"`
+	AsIs   bool   `json:"asis,omitempty"` // random scenarios: image = directory as it is after the last op
+	// random scenarios: the lost sets are drawn from these seeds once the touched sectors are known
+	// (resolved into Lost / Lost2 before anything is reported, so a reported scenario replays as is)
+	LostSeed   uint64 `json:"lostseed,omitempty"`
+	Lost2Seed  uint64 `json:"lost2seed,omitempty"`
+	AppNewTerm bool   `json:"appnewterm,omitempty"`
+}
+
+// ---------------------------------------------------------------- deterministic payloads
+
+type rng struct{ s uint64 }
+
+func (r *rng) next() uint64 {
+	r.s += 0x9e3779b97f4a7c15
+	z := r.s
+	z = (z ^ (z >> 30)) * 0xbf58476d1ce4e5b9
+	z = (z ^ (z >> 27)) * 0x94d049bb133111eb
+	return z ^ (z >> 31)
+}
+func (r *rng) intn(n int) int { return int(r.next() % uint64(n)) }
+
+// nonZero returns n pseudo-random bytes, none of them zero (so that only lost sectors read as zero).
+func (r *rng) nonZero(n int) []byte {
+	b := make([]byte, n)
+	for i := range b {
+		b[i] = byte(1 + r.next()%255)
+	}
+	return b
+}
+
+func hashStr(s string) uint64 {
+	h := uint64(1469598103934665603)
+	for i := 0; i < len(s); i++ {
+		h ^= uint64(s[i])
+		h *= 1099511628211
+	}
+	return h
+}
+
+// payloadLenFor returns the entry payload length that makes the entry's record occupy exactly
+// `words` words (length word included) with `pad` padding bytes when the CRC varint takes 5 bytes.
+func payloadLenFor(words int, index, term uint64, pad int) (int, bool) {
+	target := 8*(words-1) - pad
+	for d := 0; d < 8*words; d++ {
+		e := 2 + 1 + varintLen(term) + 1 + varintLen(index)
+		if d > 0 {
+			e += 1 + varintLen(uint64(d)) + d
+		}
+		r := 2 + 1 + 5 + 1 + varintLen(uint64(e)) + e
+		if r == target {
+			return d, true
+		}
+		if r > target {
+			return 0, false
+		}
+	}
+	return 0, false
+}
+
+// ---------------------------------------------------------------- files
+
+type FileSet struct {
+	Names []string          // sorted *.wal names
+	Data  map[string][]byte // content by name (wal and other files)
+	Other []string          // non-wal names (tmp, broken)
+}
+
+func readDir(dir string) (*FileSet, error) {
+	des, err := os.ReadDir(dir)
+	if err != nil {
+		return nil, err
+	}
+	fs := &FileSet{Data: map[string][]byte{}}
+	for _, de := range des {
+		if de.IsDir() {
+			continue
+		}
+		b, err := os.ReadFile(filepath.Join(dir, de.Name()))
+		if err != nil {
+			return nil, err
+		}
+		fs.Data[de.Name()] = b
+		if strings.HasSuffix(de.Name(), ".wal") {
+			fs.Names = append(fs.Names, de.Name())
+		} else {
+			fs.Other = append(fs.Other, de.Name())
+		}
+	}
+	sort.Strings(fs.Names)
+	sort.Strings(fs.Other)
+	return fs, nil
+}
+
+func writeImage(dir string, names []string, data map[string][]byte) error {
+	os.RemoveAll(dir)
+	if err := os.MkdirAll(dir, 0700); err != nil {
+		return err
+	}
+	for _, n := range names {
+		if err := os.WriteFile(filepath.Join(dir, n), data[n], 0600); err != nil {
+			return err
+		}
+	}
+	return nil
+}
+
+// parseSet parses all wal files of a set in order, chaining the CRC like the real decoder, and returns the
+// logical records found before the first stop, the frames per file and whether every file ended cleanly.
+func parseSet(names []string, data map[string][]byte) (logical []Logical, frames map[string][]Frame, ends map[string]int64, clean bool) {
+	frames = map[string][]Frame{}
+	ends = map[string]int64{}
+	chain := uint32(0)
+	clean = true
+	for _, n := range names {
+		fr, end, c, ok := parseFile(data[n], chain)
+		frames[n] = fr
+		ends[n] = end
+		chain = c
+		for _, f := range fr {
+			if l, isL := logicalOf(f); isL {
+				logical = append(logical, l)
+			}
+		}
+		if !ok {
+			clean = false
+			break
+		}
+	}
+	return
+}
+
+// ---------------------------------------------------------------- writer
+
+type WriteResult struct {
+	W        *wal.WAL
+	Hist     []Logical // what was handed to Save/SaveSnapshot, in order
+	OpEnd    []int     // len(Hist) after op i (1-based op index; OpEnd[0] = 0)
+	SpecSync []bool    // op i must be durable when it returns (MustSync / snapshot / cut), by the spec
+	Before   *FileSet  // directory after the last-but-one op (nil if one op)
+	After    *FileSet  // directory after the last op (before Close)
+	Meta     []byte
+	Err      string
+}
+
+func metaFor(words int) []byte {
+	if words <= 2 {
+		return nil
+	}
+	n := 8*(words-1) - 10 - 2
+	if n < 1 {
+		n = 1
+	}
+	return []byte(strings.Repeat("m", n))
+}
+
+func buildEntries(op Op, r *rng, padmode int) ([]raftpb.Entry, bool) {
+	var ents []raftpb.Entry
+	n := len(op.Ws)
+	if op.Bs != nil {
+		n = len(op.Bs)
+	}
+	for i := 0; i < n; i++ {
+		idx := op.First + uint64(i)
+		var d int
+		if op.Bs != nil {
+			d = op.Bs[i]
+		} else {
+			pad := 0
+			switch padmode {
+			case 0:
+				pad = r.intn(4)
+			default:
+				pad = r.intn(8)
+			}
+			var ok bool
+			d, ok = payloadLenFor(op.Ws[i], idx, op.Term, pad)
+			if !ok {
+				d, ok = payloadLenFor(op.Ws[i], idx, op.Term, 0)
+				if !ok {
+					return nil, false
+				}
+			}
+		}
+		e := raftpb.Entry{Index: idx, Term: op.Term}
+		if d > 0 {
+			e.Data = r.nonZero(d)
+		}
+		ents = append(ents, e)
+	}
+	return ents, true
+}
+
+func logicalEntries(ents []raftpb.Entry, op int) []Logical {
+	var out []Logical
+	for _, e := range ents {
+		out = append(out, Logical{Kind: "entry", Index: e.Index, Term: e.Term, Etype: uint64(e.Type),
+			Sum: crc32.ChecksumIEEE(e.Data), Dlen: len(e.Data), Op: op})
+	}
+	return out
+}
+
+func applyOp(w *wal.WAL, op Op, opn int, r *rng, padmode int, prevHs *[3]uint64) (hist []Logical, specSync bool, err error) {
+	switch op.K {
+	case "save":
+		ents, ok := buildEntries(op, r, padmode)
+		if !ok {
+			return nil, false, errors.New("layout: no payload length gives the prescribed record size")
+		}
+		st := raftpb.HardState{Term: op.Hs[0], Vote: op.Hs[1], Commit: op.Hs[2]}
+		hist = logicalEntries(ents, opn)
+		empty := op.Hs == [3]uint64{}
+		if !empty {
+			hist = append(hist, Logical{Kind: "state", Term: st.Term, Vote: st.Vote, Cmt: st.Commit, Op: opn})
+		}
+		// Raft's rule (raft/node.go MustSync), evaluated by the harness on the inputs
+		specSync = len(ents) != 0 || (!empty && (st.Term != prevHs[0] || st.Vote != prevHs[1]))
+		if !empty {
+			*prevHs = op.Hs
+		}
+		err = w.Save(st, ents)
+	case "snap":
+		s := walpb.Snapshot{Index: op.First, Term: op.Term, ConfState: &raftpb.ConfState{Voters: []uint64{1}}}
+		hist = []Logical{{Kind: "snap", Index: s.Index, Term: s.Term, Op: opn}}
+		specSync = true
+		err = w.SaveSnapshot(s)
+	default:
+		err = fmt.Errorf("unknown op %q", op.K)
+	}
+	return
+}
+
+func runOps(dir string, sc *Scenario, seed uint64, padmode int) *WriteResult {
+	res := &WriteResult{OpEnd: []int{0}, SpecSync: []bool{true}}
+	wal.SegmentSizeBytes = int64(sc.Seg) * 8
+	os.RemoveAll(dir)
+	os.RemoveAll(dir + ".tmp")
+	res.Meta = metaFor(sc.Meta)
+	w, err := wal.Create(lg, dir, res.Meta)
+	if err != nil {
+		res.Err = "create: " + err.Error()
+		return res
+	}
+	res.W = w
+	r := &rng{s: seed ^ hashStr(sc.ID)}
+	var prevHs [3]uint64 // the writer-side w.state as the spec sees it
+	for i, op := range sc.Ops {
+		if i == len(sc.Ops)-1 && len(sc.Ops) > 1 {
+			if res.Before, err = readDir(dir); err != nil {
+				res.Err = "readdir: " + err.Error()
+				return res
+			}
+		}
+		h, ss, err := applyOp(w, op, i+1, r, padmode, &prevHs)
+		if err != nil {
+			res.Err = fmt.Sprintf("op %d: %v", i+1, err)
+			return res
+		}
+		res.Hist = append(res.Hist, h...)
+		res.OpEnd = append(res.OpEnd, len(res.Hist))
+		res.SpecSync = append(res.SpecSync, ss)
+	}
+	if res.After, err = readDir(dir); err != nil {
+		res.Err = "readdir: " + err.Error()
+	}
+	return res
+}
+
+// ---------------------------------------------------------------- readers (real code, under recover)
+
+type ReadOut struct {
+	Err   string    `json:"err"`   // "" | ueof | crc | big | other:<text>
+	Panic string    `json:"panic"` // non-empty when the reader panicked
+	Hs    [3]uint64 `json:"hs"`
+	Ents  []Logical `json:"-"`
+	Nents int       `json:"nents"`
+	Last  uint64    `json:"last"`
+	Meta  []byte    `json:"-"`
+}
+
+func errClass(err error) string {
+	if err == nil {
+		return ""
+	}
+	if err == io.ErrUnexpectedEOF {
+		return "ueof"
+	}
+	s := err.Error()
+	switch {
+	case strings.Contains(s, "crc mismatch"):
+		return "crc"
+	case strings.Contains(s, "max entry size"):
+		return "big"
+	}
+	if len(s) > 80 {
+		s = s[:80]
+	}
+	return "other:" + s
+}
+
+func fillOut(o *ReadOut, meta []byte, hs raftpb.HardState, ents []raftpb.Entry) {
+	o.Meta = meta
+	o.Hs = [3]uint64{hs.Term, hs.Vote, hs.Commit}
+	o.Nents = len(ents)
+	for _, e := range ents {
+		o.Ents = append(o.Ents, Logical{Kind: "entry", Index: e.Index, Term: e.Term, Etype: uint64(e.Type),
+			Sum: crc32.ChecksumIEEE(e.Data), Dlen: len(e.Data)})
+		o.Last = e.Index
+	}
+}
+
+func guard(o *ReadOut, f func()) {
+	defer func() {
+		if p := recover(); p != nil {
+			o.Panic = fmt.Sprint(p)
+			if len(o.Panic) > 200 {
+				o.Panic = o.Panic[:200]
+			}
+		}
+	}()
+	f()
+}
+
+// readWrite: wal.Open + ReadAll (write mode). Returns the WAL left open for appending when it succeeded.
+func readWrite(dir string, snap walpb.Snapshot) (o ReadOut, w *wal.WAL) {
+	guard(&o, func() {
+		var err error
+		w, err = wal.Open(lg, dir, snap)
+		if err != nil {
+			o.Err = "open:" + errClass(err)
+			w = nil
+			return
+		}
+		meta, hs, ents, err := w.ReadAll()
+		if err != nil {
+			o.Err = errClass(err)
+			w.Close()
+			w = nil
+			return
+		}
+		fillOut(&o, meta, hs, ents)
+	})
+	if o.Panic != "" && w != nil {
+		func() { defer func() { recover() }(); w.Close() }()
+		w = nil
+	}
+	return
+}
+
+func readRead(dir string, snap walpb.Snapshot) (o ReadOut) {
+	guard(&o, func() {
+		w, err := wal.OpenForRead(lg, dir, snap)
+		if err != nil {
+			o.Err = "open:" + errClass(err)
+			return
+		}
+		defer w.Close()
+		meta, hs, ents, err := w.ReadAll()
+		if err != nil {
+			o.Err = errClass(err)
+			return
+		}
+		fillOut(&o, meta, hs, ents)
+	})
+	return
+}
+
+func readVerify(dir string, snap walpb.Snapshot) (o ReadOut) {
+	guard(&o, func() {
+		hs, err := wal.Verify(lg, dir, snap)
+		if err != nil {
+			o.Err = errClass(err)
+			return
+		}
+		o.Hs = [3]uint64{hs.Term, hs.Vote, hs.Commit}
+	})
+	return
+}
+
+func doRepair(dir string) (ok bool, pan string) {
+	defer func() {
+		if p := recover(); p != nil {
+			pan = fmt.Sprint(p)
+		}
+	}()
+	ok = wal.Repair(lg, dir)
+	return
+}
+
+// Recovery as a server does it: ReadAll in write mode; on ErrUnexpectedEOF Repair and read again.
+type Recovery struct {
+	First    string  `json:"first"` // ok | ueof | <other class>
+	Rep      bool    `json:"rep"`
+	RepOK    bool    `json:"rep_ok"`
+	Ok       bool    `json:"ok"`
+	Out      ReadOut `json:"out"`
+	Panic    string  `json:"panic,omitempty"`
+	FirstOut ReadOut `json:"-"`
+}
+
+func recoverDir(dir string) (rc Recovery, w *wal.WAL) {
+	o, w := readWrite(dir, walpb.Snapshot{})
+	rc.FirstOut = o
+	if o.Panic != "" {
+		rc.Panic = "ReadAll: " + o.Panic
+		rc.First = "panic"
+		return rc, nil
+	}
+	if o.Err == "" {
+		rc.First, rc.Ok, rc.Out = "ok", true, o
+		return rc, w
+	}
+	rc.First = o.Err
+	rc.Out = o
+	if o.Err != "ueof" {
+		return rc, nil
+	}
+	rc.Rep = true
+	ok, pan := doRepair(dir)
+	if pan != "" {
+		rc.Panic = "Repair: " + pan
+		return rc, nil
+	}
+	rc.RepOK = ok
+	if !ok {
+		return rc, nil
+	}
+	o2, w2 := readWrite(dir, walpb.Snapshot{})
+	rc.Out = o2
+	if o2.Panic != "" {
+		rc.Panic = "ReadAll after Repair: " + o2.Panic
+		return rc, nil
+	}
+	rc.Ok = o2.Err == ""
+	return rc, w2
+}
+
+// ---------------------------------------------------------------- contract
+
+// matchPrefix returns the largest k such that reading back exactly the first k logical records gives
+// (hs, ents); -1 if no prefix does. checkHs=false compares entries only; checkEnts=false hard state only.
+func matchPrefix(hist []Logical, upto int, hs [3]uint64, ents []Logical, checkHs, checkEnts bool) int {
+	best := -1
+	var cur []Logical
+	var chs [3]uint64
+	eq := func() bool {
+		if checkHs && chs != hs {
+			return false
+		}
+		if checkEnts {
+			if len(cur) != len(ents) {
+				return false
+			}
+			for i := range cur {
+				if !sameLogical(cur[i], ents[i]) {
+					return false
+				}
+			}
+		}
+		return true
+	}
+	if eq() {
+		best = 0
+	}
+	for k := 1; k <= upto && k <= len(hist); k++ {
+		r := hist[k-1]
+		switch r.Kind {
+		case "entry":
+			up := int(r.Index) - 1
+			if up > len(cur) {
+				up = len(cur) // cannot happen for writer-generated histories
+			}
+			if up < 0 {
+				up = 0
+			}
+			cur = append(cur[:up:up], Logical{Kind: "entry", Index: r.Index, Term: r.Term, Etype: r.Etype, Sum: r.Sum, Dlen: r.Dlen})
+		case "state":
+			chs = [3]uint64{r.Term, r.Vote, r.Cmt}
+		}
+		if eq() {
+			best = k
+		}
+	}
+	return best
+}
+
+// ---------------------------------------------------------------- results
+
+type Finding struct {
+	ID       string      `json:"id"`
+	Class    string      `json:"class"` // violation | divergence | skip
+	Kind     string      `json:"kind"`
+	Detail   string      `json:"detail"`
+	Sig      string      `json:"sig,omitempty"`
+	Scenario interface{} `json:"scenario,omitempty"`
+	Real     interface{} `json:"real,omitempty"`
+}
+
+type Stats struct {
+	Mode       string         `json:"mode"`
+	Cases      int            `json:"cases"`
+	Reads      int            `json:"reads"`
+	Violations int            `json:"violations"`
+	Divergence int            `json:"divergences"`
+	Skips      int            `json:"skips"`
+	Labels     map[string]int `json:"labels"`
+	Samples    []interface{}  `json:"samples"`
+}
+
+type Sink struct {
+	w     *bufio.Writer
+	stats Stats
+	seen  map[string]int
+}
+
+func newSink(path, mode string) *Sink {
+	f, err := os.Create(path)
+	if err != nil {
+		fmt.Fprintln(os.Stderr, "cannot create output:", err)
+		os.Exit(2)
+	}
+	return &Sink{w: bufio.NewWriter(f), stats: Stats{Mode: mode, Labels: map[string]int{}}, seen: map[string]int{}}
+}
+
+func (s *Sink) label(l string) { s.stats.Labels[l]++ }
+
+func (s *Sink) finding(f Finding) {
+	switch f.Class {
+	case "violation":
+		s.stats.Violations++
+	case "divergence":
+		s.stats.Divergence++
+	case "skip":
+		s.stats.Skips++
+	}
+	key := f.Class + "|" + f.Kind + "|" + f.Sig
+	s.seen[key]++
+	if s.seen[key] > 3 { // keep the file small: three witnesses per signature
+		return
+	}
+	b, _ := json.Marshal(f)
+	s.w.Write(b)
+	s.w.WriteByte('\n')
+	s.w.Flush()
+}
+
+func (s *Sink) sample(v interface{}) {
+	if len(s.stats.Samples) < 4 {
+		s.stats.Samples = append(s.stats.Samples, v)
+	}
+}
+
+func (s *Sink) close() {
+	b, _ := json.Marshal(map[string]interface{}{"done": true, "stats": s.stats, "sigcounts": s.seen})
+	s.w.Write(b)
+	s.w.WriteByte('\n')
+	s.w.Flush()
+}
+
+// ---------------------------------------------------------------- replay of one crash scenario
+
+func sectorZero(b []byte, sector int, from int64, old []byte) {
+	lo := int64(sector) * 512
+	hi := lo + 512
+	if lo < from {
+		lo = from
+	}
+	for x := lo; x < hi && x < int64(len(b)); x++ {
+		if old != nil && x < int64(len(old)) {
+			b[x] = old[x]
+		} else {
+			b[x] = 0
+		}
+	}
+}
+
+func cloneData(names []string, data map[string][]byte) map[string][]byte {
+	out := map[string][]byte{}
+	for _, n := range names {
+		out[n] = append([]byte(nil), data[n]...)
+	}
+	return out
+}
+
+func specDurable(wr *WriteResult, uptoOp int) int {
+	// number of logical records that must survive a crash happening after op `uptoOp` returned
+	d := 0
+	for i := 1; i <= uptoOp; i++ {
+		if wr.SpecSync[i] {
+			d = wr.OpEnd[i]
+		}
+	}
+	return d
+}
+
+type realView struct {
+	Rec1   *Recovery `json:"rec1,omitempty"`
+	Rec2   *Recovery `json:"rec2,omitempty"`
+	Verify *ReadOut  `json:"verify,omitempty"`
+	Read   *ReadOut  `json:"read,omitempty"`
+	K1     int       `json:"k1"`
+	K2     int       `json:"k2"`
+	Dur    int       `json:"durable"`
+	Total  int       `json:"total"`
+}
+
+func checkRecovered(sink *Sink, sc *Scenario, rv *realView, what string, rc *Recovery, hist []Logical, durable int, meta []byte) (k int, bad bool) {
+	rep := func(kind, detail string) {
+		sink.finding(Finding{ID: sc.ID, Class: "violation", Kind: kind, Detail: what + ": " + detail, Sig: what + "/" + kind, Scenario: sc, Real: rv})
+	}
+	if rc.Panic != "" {
+		rep("panic", rc.Panic)
+		return -1, true
+	}
+	if !rc.Ok {
+		if rc.Rep && !rc.RepOK {
+			rep("unrepairable", "ReadAll returned ErrUnexpectedEOF and Repair returned false")
+		} else if rc.Rep {
+			rep("unrepairable", "ReadAll after a successful Repair failed: "+rc.Out.Err)
+		} else {
+			rep("unrepairable", "ReadAll (write mode) failed with a non-repairable error on a crash image: "+rc.First)
+		}
+		return -1, true
+	}
+	k = matchPrefix(hist, len(hist), rc.Out.Hs, rc.Out.Ents, true, true)
+	if k < 0 {
+		rep("not-prefix", fmt.Sprintf("recovered hard state %v and %d entries (last %d) equal no prefix of what was written", rc.Out.Hs, rc.Out.Nents, rc.Out.Last))
+		return k, true
+	}
+	if k < durable {
+		rep("lost-synced", fmt.Sprintf("recovered prefix has %d records but %d were covered by a completed sync", k, durable))
+		return k, true
+	}
+	if string(rc.Out.Meta) != string(meta) {
+		rep("not-prefix", "metadata differs")
+		return k, true
+	}
+	return k, false
+}
+
+func replayScenario(sink *Sink, sc *Scenario, work string, seed uint64) {
+	sink.stats.Cases++
+	base := filepath.Join(work, "w")
+	img := filepath.Join(work, "img")
+	var wr *WriteResult
+	// perform the real writes; retry with other payloads when the CRC varint length changes a record size
+	layoutOK := false
+	for attempt := 0; attempt < 6 && !layoutOK; attempt++ {
+		if wr != nil && wr.W != nil {
+			wr.W.Close()
+		}
+		padmode := 1
+		if attempt >= 3 {
+			padmode = 0
+		}
+		wr = runOps(base, sc, seed+uint64(attempt)*7919, padmode)
+		if wr.Err != "" {
+			if strings.HasPrefix(wr.Err, "op") && strings.Contains(wr.Err, "layout") {
+				continue
+			}
+			// the real writer failed on a legal operation sequence
+			sink.finding(Finding{ID: sc.ID, Class: "violation", Kind: "writer-error", Detail: wr.Err, Sig: "writer-error", Scenario: sc})
+			if wr.W != nil {
+				wr.W.Close()
+			}
+			return
+		}
+		layoutOK = sc.NoPred || layoutMatches(sc, wr)
+	}
+	defer func() {
+		if wr.W != nil {
+			func() { defer func() { recover() }(); wr.W.Close() }()
+		}
+	}()
+	if !layoutOK {
+		sink.finding(Finding{ID: sc.ID, Class: "skip", Kind: "layout", Detail: "record sizes on disk differ from the prescribed ones", Sig: "layout"})
+		return
+	}
+	nops := len(sc.Ops)
+	after := wr.After
+	// sanity of the clean write: what is on disk (independent parser) is what was handed to the writer
+	cleanLog, _, _, clean := parseSet(after.Names, after.Data)
+	if !clean || !prefixOfHist(cleanLog, wr.Hist) {
+		sink.finding(Finding{ID: sc.ID, Class: "violation", Kind: "clean-write-mismatch",
+			Detail: "the files written by an uninterrupted run do not parse to the records handed to Save", Sig: "clean-write-mismatch", Scenario: sc})
+		return
+	}
+
+	// ---- image of the first crash
+	tail := sc.Tail
+	if sc.NoPred && !sc.AsIs && tail == 0 {
+		// crash during the last call: a segment created by that call's cut is not visible yet
+		tail = 1
+		if wr.Before != nil {
+			tail = len(wr.Before.Names)
+		}
+		sc.Tail = tail
+	}
+	if sc.AsIs || tail <= 0 || tail > len(after.Names) {
+		tail = len(after.Names)
+	}
+	names := after.Names[:tail]
+	data := cloneData(names, after.Data)
+	tailName := names[tail-1]
+	// real synced offset of the tail: where the file ended after the previous op
+	soff := int64(0)
+	if wr.Before != nil {
+		if b, ok := wr.Before.Data[tailName]; ok {
+			_, e, _, _ := parseFile(b, 0)
+			soff = e
+		}
+	} else {
+		soff = headEnd(after.Data[tailName])
+	}
+	rv := &realView{Total: len(wr.Hist)}
+	durableOps := nops - 1
+	if len(sc.Lost) == 0 && (sc.AsIs || crashAfterReturn(sc)) {
+		durableOps = nops // the image is the directory after the last call returned
+	}
+	rv.Dur = specDurable(wr, durableOps)
+	if !sc.NoPred && int64(sc.Soff)*8 != soff && len(sc.Lost) > 0 {
+		sink.finding(Finding{ID: sc.ID, Class: "divergence", Kind: "synced-offset", Detail: fmt.Sprintf("model synced offset %d bytes, real %d", sc.Soff*8, soff), Sig: "synced-offset"})
+	}
+	if sc.LostSeed != 0 {
+		_, e, _, _ := parseFile(data[tailName], 0)
+		if e > soff {
+			sc.Lost = pickLost(sc.LostSeed, int(soff/512), int((e-1)/512))
+		}
+		sc.LostSeed = 0
+	}
+	for _, s := range sc.Lost {
+		sectorZero(data[tailName], s, soff, nil)
+	}
+	if err := writeImage(img, names, data); err != nil {
+		fmt.Fprintln(os.Stderr, "infra:", err)
+		os.Exit(2)
+	}
+
+	// read-only readers first (they do not modify the image)
+	vo := readVerify(img, walpb.Snapshot{})
+	ro := readRead(img, walpb.Snapshot{})
+	sink.stats.Reads += 2
+	rv.Verify, rv.Read = &vo, &ro
+	if vo.Panic != "" {
+		sink.finding(Finding{ID: sc.ID, Class: "violation", Kind: "panic", Detail: "Verify: " + vo.Panic, Sig: "verify/panic", Scenario: sc, Real: rv})
+	} else if vo.Err == "" {
+		if k := matchPrefix(wr.Hist, len(wr.Hist), vo.Hs, nil, true, false); k < 0 {
+			sink.finding(Finding{ID: sc.ID, Class: "violation", Kind: "not-prefix", Detail: fmt.Sprintf("Verify returned hard state %v which no prefix of the written records gives", vo.Hs), Sig: "verify/not-prefix", Scenario: sc, Real: rv})
+		}
+	} else {
+		sink.finding(Finding{ID: sc.ID, Class: "divergence", Kind: "verify-error", Detail: "wal.Verify failed on a crash image: " + vo.Err, Sig: "verify-error/" + vo.Err, Scenario: sc})
+	}
+	if ro.Panic != "" {
+		sink.finding(Finding{ID: sc.ID, Class: "violation", Kind: "panic", Detail: "ReadAll(read mode): " + ro.Panic, Sig: "read/panic", Scenario: sc, Real: rv})
+	} else if ro.Err == "" {
+		k := matchPrefix(wr.Hist, len(wr.Hist), ro.Hs, ro.Ents, true, true)
+		if k < 0 {
+			sink.finding(Finding{ID: sc.ID, Class: "violation", Kind: "not-prefix", Detail: "ReadAll(read mode) returned data that is no prefix of what was written", Sig: "read/not-prefix", Scenario: sc, Real: rv})
+		} else if k < rv.Dur {
+			sink.finding(Finding{ID: sc.ID, Class: "violation", Kind: "lost-synced", Detail: fmt.Sprintf("ReadAll(read mode) returned %d records, %d were synced", k, rv.Dur), Sig: "read/lost-synced", Scenario: sc, Real: rv})
+		}
+	} else {
+		sink.finding(Finding{ID: sc.ID, Class: "divergence", Kind: "readmode-error", Detail: "ReadAll(read mode) failed on a crash image: " + ro.Err, Sig: "readmode-error/" + ro.Err, Scenario: sc})
+	}
+
+	// recovery in write mode (+ Repair)
+	rc, w2 := recoverDir(img)
+	sink.stats.Reads++
+	rv.Rec1 = &rc
+	defer func() {
+		if w2 != nil {
+			func() { defer func() { recover() }(); w2.Close() }()
+		}
+	}()
+	k1, bad := checkRecovered(sink, sc, rv, "recovery", &rc, wr.Hist, rv.Dur, wr.Meta)
+	rv.K1 = k1
+	sink.label("first=" + clip(rc.First))
+	if rc.Rep {
+		sink.label("repair")
+	}
+	if len(sc.Lost) > 0 {
+		sink.label("lost>0")
+	}
+	if tail > 1 {
+		sink.label("segments>1")
+	}
+	if !sc.NoPred && sc.P1 != nil && rc.Panic == "" {
+		p := sc.P1
+		var diffs []string
+		pf := p.First
+		if pf != "ok" && pf != "ueof" {
+			pf = "other"
+		}
+		rf := rc.First
+		if rf != "ok" && rf != "ueof" {
+			rf = "other"
+		}
+		if pf != rf {
+			diffs = append(diffs, fmt.Sprintf("first ReadAll: model %s real %s", p.First, rc.First))
+		}
+		if p.Rep != rc.Rep {
+			diffs = append(diffs, fmt.Sprintf("repair: model %v real %v", p.Rep, rc.Rep))
+		}
+		if p.Ok != rc.Ok {
+			diffs = append(diffs, fmt.Sprintf("recovered: model %v real %v", p.Ok, rc.Ok))
+		}
+		if p.Ok && rc.Ok {
+			if p.Nents != rc.Out.Nents || p.Lastidx != rc.Out.Last || p.Hs != rc.Out.Hs {
+				diffs = append(diffs, fmt.Sprintf("result: model nents=%d last=%d hs=%v real nents=%d last=%d hs=%v", p.Nents, p.Lastidx, p.Hs, rc.Out.Nents, rc.Out.Last, rc.Out.Hs))
+			}
+		}
+		if len(diffs) > 0 {
+			sink.finding(Finding{ID: sc.ID, Class: "divergence", Kind: "prediction", Detail: strings.Join(diffs, "; "), Sig: "prediction/epoch1", Scenario: sc, Real: rv})
+		}
+	}
+	sink.sample(map[string]interface{}{"scenario": sc, "real_first": rc.First, "real_repair": rc.Rep, "real_nents": rc.Out.Nents, "real_hs": rc.Out.Hs, "matched_prefix": k1, "durable": rv.Dur, "written": len(wr.Hist)})
+	if bad || !sc.Two || w2 == nil || len(sc.App) == 0 {
+		return
+	}
+
+	// ---- epoch 2: append on the recovered WAL, second crash
+	post, err := readDir(img)
+	if err != nil {
+		fmt.Fprintln(os.Stderr, "infra:", err)
+		os.Exit(2)
+	}
+	postLog, _, ends, _ := parseSet(post.Names, post.Data)
+	hist2 := append([]Logical(nil), postLog...)
+	for i := range hist2 {
+		hist2[i].Op = 0
+	}
+	durable2 := len(hist2)
+	ptail := post.Names[len(post.Names)-1]
+	soff2 := ends[ptail]
+	old := post.Data[ptail]
+	r2 := &rng{s: seed ^ hashStr(sc.ID) ^ 0xabcdef}
+	var dummy [3]uint64
+	if sc.NoPred && sc.App[0].First == 0 {
+		// random scenario: continue the recovered log
+		a := &sc.App[0]
+		a.First = rc.Out.Last + 1
+		a.Term = rc.Out.Hs[0]
+		if rc.Out.Nents > 0 && rc.Out.Ents[rc.Out.Nents-1].Term > a.Term {
+			a.Term = rc.Out.Ents[rc.Out.Nents-1].Term
+		}
+		if sc.AppNewTerm || a.Term == 0 {
+			a.Term++
+			a.Hs = [3]uint64{a.Term, 1, rc.Out.Hs[2]}
+		}
+	}
+	h, _, err := applyOp(w2, sc.App[0], nops+1, r2, 1, &dummy)
+	if err != nil {
+		sink.finding(Finding{ID: sc.ID, Class: "violation", Kind: "writer-error", Detail: "append after recovery: " + err.Error(), Sig: "append/writer-error", Scenario: sc, Real: rv})
+		return
+	}
+	hist2 = append(hist2, h...)
+	after2, err := readDir(img)
+	if err != nil {
+		fmt.Fprintln(os.Stderr, "infra:", err)
+		os.Exit(2)
+	}
+	func() { defer func() { recover() }(); w2.Close() }()
+	w2 = nil
+	names2 := after2.Names
+	data2 := cloneData(names2, after2.Data)
+	t2 := names2[len(names2)-1]
+	if t2 == ptail && sc.Lost2Seed != 0 {
+		_, e, _, _ := parseFile(data2[t2], 0)
+		if e > soff2 {
+			sc.Lost2 = pickLost(sc.Lost2Seed, int(soff2/512), int((e-1)/512))
+		}
+		sc.Lost2Seed = 0
+	}
+	if t2 == ptail {
+		for _, s := range sc.Lost2 {
+			sectorZero(data2[t2], s, soff2, old) // a lost sector keeps its OLD content
+		}
+	}
+	img2 := filepath.Join(work, "img2")
+	if err := writeImage(img2, names2, data2); err != nil {
+		fmt.Fprintln(os.Stderr, "infra:", err)
+		os.Exit(2)
+	}
+	rcb, w3 := recoverDir(img2)
+	sink.stats.Reads++
+	if w3 != nil {
+		func() { defer func() { recover() }(); w3.Close() }()
+	}
+	rv.Rec2 = &rcb
+	k2, _ := checkRecovered(sink, sc, rv, "second-recovery", &rcb, hist2, durable2, wr.Meta)
+	rv.K2 = k2
+	sink.label("epoch2")
+	if rcb.Rep {
+		sink.label("epoch2.repair")
+	}
+	if !sc.NoPred && sc.P2 != nil && rcb.Panic == "" {
+		p := sc.P2
+		var diffs []string
+		if (p.First == "ok") != (rcb.First == "ok") || (p.First == "ueof") != (rcb.First == "ueof") {
+			diffs = append(diffs, fmt.Sprintf("first ReadAll: model %s real %s", p.First, rcb.First))
+		}
+		if p.Ok != rcb.Ok {
+			diffs = append(diffs, fmt.Sprintf("recovered: model %v real %v", p.Ok, rcb.Ok))
+		}
+		if p.Ok && rcb.Ok && (p.Nents != rcb.Out.Nents || p.Lastidx != rcb.Out.Last || p.Hs != rcb.Out.Hs) {
+			diffs = append(diffs, fmt.Sprintf("result: model nents=%d last=%d hs=%v real nents=%d last=%d hs=%v", p.Nents, p.Lastidx, p.Hs, rcb.Out.Nents, rcb.Out.Last, rcb.Out.Hs))
+		}
+		if len(diffs) > 0 {
+			sink.finding(Finding{ID: sc.ID, Class: "divergence", Kind: "prediction", Detail: strings.Join(diffs, "; "), Sig: "prediction/epoch2", Scenario: sc, Real: rv})
+		}
+	}
+	os.RemoveAll(img2)
+}
+
+func clip(s string) string {
+	if i := strings.Index(s, ":"); i > 0 {
+		return s[:i]
+	}
+	return s
+}
+
+// crashAfterReturn: the TLC scenario crashed in the "write" phase (after the last call returned):
+// last op not synced (buffered) or ended with a completed cut (tail file is the new segment).
+func crashAfterReturn(sc *Scenario) bool {
+	last := sc.Ops[len(sc.Ops)-1]
+	if !last.Sync {
+		return true
+	}
+	if last.Cut {
+		// a completed cut shows one more file than the number of cuts before it + 1
+		cuts := 0
+		for _, o := range sc.Ops {
+			if o.Cut {
+				cuts++
+			}
+		}
+		return sc.Tail == cuts+1
+	}
+	return false
+}
+
+func headEnd(b []byte) int64 {
+	// end of the records written by Create (crc, metadata, snapshot)
+	fr, end, _, _ := parseFile(b, 0)
+	if len(fr) >= 3 {
+		return fr[2].Off + int64(fr[2].Words)*8
+	}
+	return end
+}
+
+func prefixOfHist(disk []Logical, hist []Logical) bool {
+	// disk (without head copies of the state written by cut) must equal hist, or a prefix of it when the
+	// last save is still buffered
+	i := 0
+	for _, d := range disk {
+		if i < len(hist) && sameLogical(d, hist[i]) {
+			i++
+			continue
+		}
+		if d.Kind == "state" { // head copy of w.state
+			continue
+		}
+		if d.Kind == "snap" && d.Index == 0 { // the snapshot{0,0} of Create
+			continue
+		}
+		return false
+	}
+	return true
+}
+
+func layoutMatches(sc *Scenario, wr *WriteResult) bool {
+	// every entry record must have the prescribed size in words; state records 3, snapshot 4
+	_, frames, _, _ := parseSet(wr.After.Names, wr.After.Data)
+	var got []int
+	for _, n := range wr.After.Names {
+		for _, f := range frames[n] {
+			if f.Typ == tEntry {
+				got = append(got, f.Words)
+			}
+			if f.Typ == tState && f.Words != 3 {
+				return false
+			}
+			if f.Typ == tSnap && f.Words != 3 && f.Words != 4 {
+				return false
+			}
+			if f.Typ == tSnap && f.Off > 64 && f.Words != 4 {
+				return false
+			}
+			if f.Typ == tMeta && f.Words != sc.Meta {
+				return false
+			}
+		}
+	}
+	var want []int
+	for i, o := range sc.Ops {
+		if i == len(sc.Ops)-1 && !o.Sync && !o.Cut {
+			break // still buffered
+		}
+		want = append(want, o.Ws...)
+	}
+	if len(got) < len(want) {
+		return false
+	}
+	for i := range want {
+		if got[i] != want[i] {
+			return false
+		}
+	}
+	return true
+}
+
+// ---------------------------------------------------------------- main
+
 func main() {
-	wal.SegmentSizeBytes = 2048
-	d := os.Args[1]
-	w, err := wal.Create(zap.NewNop(), d, []byte("m"))
-	fmt.Println(err)
-	err = w.Save(raftpb.HardState{Term: 1, Vote: 1, Commit: 0}, []raftpb.Entry{{Index: 1, Term: 1, Data: []byte("hello")}})
-	fmt.Println(err)
-	w.Close()
-	_ = snap.New
-	_ = walpb.Snapshot{}
+	debug.SetGCPercent(200)
+	if len(os.Args) < 2 {
+		fmt.Fprintln(os.Stderr, "usage: walsim replay|random|corrupt|snap ...")
+		os.Exit(2)
+	}
+	cmd := os.Args[1]
+	fs := flag.NewFlagSet(cmd, flag.ExitOnError)
+	in := fs.String("in", "", "scenario file (ndjson)")
+	out := fs.String("out", "", "result file (ndjson)")
+	work := fs.String("work", "", "scratch directory (tmpfs recommended)")
+	seed := fs.Uint64("seed", 1, "seed")
+	shard := fs.Int("shard", 0, "this worker's index")
+	nshard := fs.Int("nshard", 1, "number of workers")
+	n := fs.Int("n", 100, "number of random cases / images")
+	full := fs.Bool("full", false, "corrupt: every offset of the zero tail too")
+	trace := fs.Bool("trace", false, "print BEGIN <id> before every case (to find a case that kills the process)")
+	fs.Parse(os.Args[2:])
+	if *work == "" || *out == "" {
+		fmt.Fprintln(os.Stderr, "-work and -out are required")
+		os.Exit(2)
+	}
+	os.MkdirAll(*work, 0700)
+	sink := newSink(*out, cmd)
+	switch cmd {
+	case "replay":
+		f, err := os.Open(*in)
+		if err != nil {
+			fmt.Fprintln(os.Stderr, err)
+			os.Exit(2)
+		}
+		rd := bufio.NewReaderSize(f, 1<<20)
+		i := 0
+		for {
+			line, err := rd.ReadBytes('\n')
+			if len(line) > 1 {
+				if i%*nshard == *shard {
+					var sc Scenario
+					if jerr := json.Unmarshal(line, &sc); jerr != nil {
+						fmt.Fprintln(os.Stderr, "bad scenario line:", jerr)
+						os.Exit(2)
+					}
+					if sc.ID == "" {
+						sc.ID = fmt.Sprintf("s%d", i)
+					}
+					if *trace {
+						fmt.Println("BEGIN", sc.ID)
+					}
+					replayScenario(sink, &sc, *work, *seed)
+				}
+				i++
+			}
+			if err != nil {
+				break
+			}
+		}
+	case "random":
+		runRandom(sink, *work, *seed, *shard, *nshard, *n, *trace)
+	case "corrupt":
+		runCorrupt(sink, *work, *seed, *shard, *nshard, *n, *full, *trace, *in)
+	case "snap":
+		runSnap(sink, *work, *seed, *shard, *nshard, *n, *trace)
+	default:
+		fmt.Fprintln(os.Stderr, "unknown command", cmd)
+		os.Exit(2)
+	}
+	sink.close()
+	os.RemoveAll(*work)
 }
